@@ -13,6 +13,7 @@ import TzVerif.Spec.TzGrammar
 import TzVerif.Proofs.TzReader
 import TzVerif.Proofs.TzParse
 import TzVerif.Proofs.SrcEqTzString
+import TzVerif.Generated.StableC09   -- per run: the current translation (SrcNow) equals the baseline (Src) these theorems are about
 
 namespace TzVerif.C09
 open TzVerif.Model TzVerif.Proofs
